@@ -272,6 +272,8 @@ def helper_funs(module_ast, names):
                         dfl[x.arg] = ("expr", d)
                 henv[node.name] = enc.Fun(params, rets[0].value, henv, {k: enc.const_value(None, v[1].value) if isinstance(v[1], ast.Constant) and isinstance(v[1].value, (int, bool)) else None
                                                                           for k, v in dfl.items()})
+        if isinstance(node, ast.Assign) and isinstance(node.value, ast.Constant) and type(node.value.value) is int and isinstance(node.targets[0], ast.Name) and node.targets[0].id in names:
+            henv[node.targets[0].id] = enc.const_value(None, node.value.value)   # a module constant a helper refers to
         if isinstance(node, ast.Assign) and isinstance(node.value, ast.Lambda) and isinstance(node.targets[0], ast.Name) and node.targets[0].id in names:
             henv[node.targets[0].id] = enc.Fun([a.arg for a in node.value.args.args], node.value.body, henv)
     return henv
@@ -314,7 +316,8 @@ def unit_helpers(u):
         mast = ast.parse(text)
         for i, c in enumerate(cases):
             ds = mod.DS()
-            truth_lam = ast.parse(c["lam"], mode="eval").body
+            # the truth is the lambda as written (helpers interpreted by their own return expression), unless the case spells it out
+            truth_lam = ast.parse(c.get("truth", c["lam"]), mode="eval").body
             P = ast.Call(ast.Name("Select", ast.Load()), [ast.Name("ds", ast.Load()), truth_lam], [])
             try:
                 st = getattr(mod, "build_%d" % i)(ds)
